@@ -654,13 +654,19 @@ impl PositionTracker {
             // We pre-compute the end tree size here so we can determine when we reach the
             // last transaction in the block that adds notes to the tree. This enables us
             // to correctly set the tree checkpoint in `find_received`.
-            let end_tree_size = start_tree_size
-                + block
-                    .vtx
-                    .iter()
-                    .map(tx_output_count)
-                    .map(|tx_outputs| u32::try_from(tx_outputs).unwrap())
-                    .sum::<u32>();
+            // Note commitment tree sizes are `u32`-bounded by the protocol, so overflow here
+            // indicates corrupt or adversarial input rather than a valid chain state.
+            let overflow = || ScanError::TreeSizeOverflow {
+                protocol,
+                at_height,
+            };
+            let end_tree_size = block.vtx.iter().map(tx_output_count).try_fold(
+                start_tree_size,
+                |acc, tx_outputs| {
+                    let tx_outputs = u32::try_from(tx_outputs).map_err(|_| overflow())?;
+                    acc.checked_add(tx_outputs).ok_or_else(overflow)
+                },
+            )?;
 
             Ok((start_tree_size, end_tree_size))
         }
